@@ -18,6 +18,269 @@ import (
 type c19Frame struct {
 	call   ssa.CallInstruction
 	parent *c19Frame
+	fn     *ssa.Function // the function entered (nil: the static callee of call)
+	// args/argFr (optional): the values seen by fn's parameters and the context
+	// each lives in, when they are not simply call.Common().Args in parent
+	// (bound method values: the receiver comes from where the value was made)
+	args  []ssa.Value
+	argFr []*c19Frame
+}
+
+func (f *c19Frame) callee() *ssa.Function {
+	if f.fn != nil {
+		return f.fn
+	}
+	return staticCallee(f.call)
+}
+
+// arg returns the value bound to parameter i of the entered function and the
+// context it has to be evaluated in.
+func (f *c19Frame) arg(i int) (ssa.Value, *c19Frame, bool) {
+	if f.args != nil {
+		if i < 0 || i >= len(f.args) {
+			return nil, nil, false
+		}
+		return f.args[i], f.argFr[i], true
+	}
+	a := f.call.Common().Args
+	if i < 0 || i >= len(a) {
+		return nil, nil, false
+	}
+	return a[i], f.parent, true
+}
+
+// creatorFrame: the context of the function that created closure fn, found
+// among the callers on the call string (nil when the closure was made elsewhere).
+func creatorFrame(fr *c19Frame, closure *ssa.Function) *c19Frame {
+	par := closure.Parent()
+	for f := fr; f != nil; f = f.parent {
+		if f.call.Parent() == par {
+			return f.parent
+		}
+	}
+	return nil
+}
+
+// c19Target is one function a func-typed value can denote.
+type c19Target struct {
+	fn     *ssa.Function
+	recv   ssa.Value // bound method value: the receiver ...
+	recvFr *c19Frame // ... and its context
+}
+
+// boundMethod: fn is the synthetic wrapper of a bound method value x.M; returns M.
+func (x *c19) boundMethod(fn *ssa.Function) *ssa.Function {
+	if fn == nil || !strings.HasPrefix(fn.Synthetic, "bound method wrapper") {
+		return nil
+	}
+	if obj, ok := fn.Object().(*types.Func); ok {
+		if m := x.p.SSA.FuncValue(obj); m != nil {
+			return origin(m)
+		}
+	}
+	return nil
+}
+
+// funcTargets resolves a func-typed value to the package functions it can
+// denote: function literals and methods values, through temporaries, captured
+// variables, parameters (call-string frames, else all visible call sites),
+// named func types (every conversion to the type in the package), unexported
+// func-typed struct fields (every store in the package) and local literal
+// tables. ok=false when some possible value is not a known package function.
+func (x *c19) funcTargets(v ssa.Value, fr *c19Frame, depth int) ([]c19Target, bool) {
+	if v == nil || depth > 8 {
+		return nil, false
+	}
+	union := func(vals []ssa.Value, frs []*c19Frame) ([]c19Target, bool) {
+		var out []c19Target
+		seen := map[*ssa.Function]bool{}
+		for i, a := range vals {
+			ts, ok := x.funcTargets(a, frs[i], depth+1)
+			if !ok {
+				return nil, false
+			}
+			for _, t := range ts {
+				if !seen[t.fn] {
+					seen[t.fn] = true
+					out = append(out, t)
+				}
+			}
+		}
+		return out, len(out) > 0
+	}
+	same := func(vals []ssa.Value, f *c19Frame) ([]c19Target, bool) {
+		frs := make([]*c19Frame, len(vals))
+		for i := range frs {
+			frs[i] = f
+		}
+		return union(vals, frs)
+	}
+	switch t := v.(type) {
+	case *ssa.Function:
+		f := origin(t)
+		if x.inPkg[f] && len(f.Blocks) > 0 {
+			return []c19Target{{fn: f}}, true
+		}
+		return nil, false
+	case *ssa.MakeClosure:
+		f, _ := t.Fn.(*ssa.Function)
+		if m := x.boundMethod(f); m != nil && x.inPkg[m] && len(t.Bindings) == 1 {
+			return []c19Target{{fn: m, recv: t.Bindings[0], recvFr: fr}}, true
+		}
+		f = origin(f)
+		if f != nil && x.inPkg[f] && len(f.Blocks) > 0 {
+			return []c19Target{{fn: f}}, true
+		}
+		return nil, false
+	case *ssa.ChangeType:
+		return x.funcTargets(t.X, fr, depth+1)
+	case *ssa.MakeInterface:
+		return x.funcTargets(t.X, fr, depth+1)
+	case *ssa.Phi:
+		return same(t.Edges, fr)
+	case *ssa.FreeVar:
+		if b := resolveFreeVar(t); b != nil {
+			return x.funcTargets(b, creatorFrame(fr, t.Parent()), depth+1)
+		}
+	case *ssa.Parameter:
+		if fr != nil {
+			if a, afr, ok := fr.arg(c19ParamIndex(t)); ok {
+				return x.funcTargets(a, afr, depth+1)
+			}
+		}
+		// a value of a named func type of the package: every conversion to it
+		if n, ok := types.Unalias(t.Type()).(*types.Named); ok && n.Obj().Pkg() != nil && n.Obj().Pkg().Path() == x.pkg {
+			var vals []ssa.Value
+			for _, fn := range x.fns {
+				allInstrs(fn, func(in ssa.Instruction) {
+					if ct, ok := in.(*ssa.ChangeType); ok && types.Identical(ct.Type(), t.Type()) {
+						vals = append(vals, ct.X)
+					}
+					if mc, ok := in.(*ssa.MakeClosure); ok && types.Identical(mc.Type(), t.Type()) {
+						vals = append(vals, mc)
+					}
+				})
+			}
+			if len(vals) > 0 {
+				return same(vals, nil)
+			}
+		}
+		if sites, ok := x.callers(t.Parent()); ok {
+			var vals []ssa.Value
+			for _, s := range sites {
+				args := s.instr.Common().Args
+				i := c19ParamIndex(t)
+				if i < 0 || i >= len(args) {
+					return nil, false
+				}
+				vals = append(vals, args[i])
+			}
+			return same(vals, nil)
+		}
+	case *ssa.UnOp:
+		if t.Op != token.MUL {
+			return nil, false
+		}
+		switch a := t.X.(type) {
+		case *ssa.Alloc:
+			var vals []ssa.Value
+			for _, rr := range refs(a) {
+				if st, ok := rr.(*ssa.Store); ok && st.Addr == ssa.Value(a) {
+					vals = append(vals, st.Val)
+				}
+			}
+			if len(vals) > 0 {
+				return same(vals, fr)
+			}
+		case *ssa.FieldAddr:
+			id := fieldIDOfAddr(a)
+			if _, local := a.X.(*ssa.Alloc); !local && strings.HasPrefix(id.Type, x.pkg+".") && !token.IsExported(id.Field) {
+				// every store to the unexported field in the package
+				var vals []ssa.Value
+				for _, fn := range x.fns {
+					allInstrs(fn, func(in ssa.Instruction) {
+						if st, ok := in.(*ssa.Store); ok {
+							if fa, ok := st.Addr.(*ssa.FieldAddr); ok && fieldIDOfAddr(fa) == id {
+								vals = append(vals, st.Val)
+							}
+						}
+					})
+				}
+				if len(vals) > 0 {
+					return same(vals, nil)
+				}
+				return nil, false
+			}
+		}
+	}
+	// local literal tables, struct values, captured cells: by provenance
+	var out []c19Target
+	seen := map[*ssa.Function]bool{}
+	ok := true
+	sig := v.Type().Underlying()
+	x.derive(v, fr, func(o c19Origin) {
+		if o.v == nil || !types.Identical(o.v.Type().Underlying(), sig) {
+			return
+		}
+		switch o.v.(type) {
+		case *ssa.MakeClosure, *ssa.Function:
+			ts, tok := x.funcTargets(o.v, o.fr, depth+1)
+			if !tok {
+				ok = false
+				return
+			}
+			for _, t := range ts {
+				if !seen[t.fn] {
+					seen[t.fn] = true
+					out = append(out, t)
+				}
+			}
+		default:
+			ok = false
+		}
+	})
+	return out, ok && len(out) > 0
+}
+
+// enter returns the contexts of every same-package function a call can enter:
+// its static callee, or the resolved targets of a dynamic call.
+func (x *c19) enter(ci ssa.CallInstruction, fr *c19Frame) []*c19Frame {
+	if cal := x.pkgCalleeStatic(ci); cal != nil {
+		return []*c19Frame{{call: ci, parent: fr, fn: cal}}
+	}
+	cc := ci.Common()
+	if cc.IsInvoke() {
+		return nil
+	}
+	if sc := staticCallee(ci); sc != nil && x.boundMethod(sc) == nil {
+		return nil // a static call into another package
+	}
+	if _, isB := cc.Value.(*ssa.Builtin); isB {
+		return nil
+	}
+	if x.busyTargets {
+		return nil
+	}
+	x.busyTargets = true
+	ts, ok := x.funcTargets(cc.Value, fr, 0)
+	x.busyTargets = false
+	if !ok {
+		return nil
+	}
+	var out []*c19Frame
+	for _, t := range ts {
+		f := &c19Frame{call: ci, parent: fr, fn: t.fn}
+		if t.recv != nil {
+			f.args = append([]ssa.Value{t.recv}, cc.Args...)
+			f.argFr = make([]*c19Frame, len(f.args))
+			f.argFr[0] = t.recvFr
+			for i := 1; i < len(f.argFr); i++ {
+				f.argFr[i] = fr
+			}
+		}
+		out = append(out, f)
+	}
+	return out
 }
 
 func (x *c19) instrID(in ssa.Instruction) int {
@@ -39,7 +302,7 @@ func (x *c19) frameKey(fr *c19Frame) string {
 
 func c19FrameHas(fr *c19Frame, fn *ssa.Function) bool {
 	for f := fr; f != nil; f = f.parent {
-		if staticCallee(f.call) == fn {
+		if f.callee() == fn {
 			return true
 		}
 	}
@@ -121,26 +384,31 @@ func (w *c19Walk) walk(v ssa.Value, idx int, fr *c19Frame, depth int) {
 	case *ssa.Extract:
 		w.walk(t.Tuple, t.Index, fr, depth+1)
 	case *ssa.Call:
-		if cal := x.pkgCallee(t); cal != nil && !c19FrameHas(fr, cal) && c19FrameDepth(fr) < 8 {
-			nf := &c19Frame{call: t, parent: fr}
+		if c19FrameDepth(fr) < 8 {
 			n := 0
-			allInstrs(cal, func(in ssa.Instruction) {
-				ret, ok := in.(*ssa.Return)
-				if !ok {
-					return
+			for _, nf := range x.enter(t, fr) {
+				if c19FrameHas(fr, nf.fn) {
+					continue
 				}
-				i := idx
-				if i < 0 {
-					i = 0
-				}
-				if i >= len(ret.Results) {
-					return
-				}
-				n++
-				for _, u := range unspill(ret.Results[i]) {
-					w.walk(u, -1, nf, depth+1)
-				}
-			})
+				nf := nf
+				allInstrs(nf.fn, func(in ssa.Instruction) {
+					ret, ok := in.(*ssa.Return)
+					if !ok {
+						return
+					}
+					i := idx
+					if i < 0 {
+						i = 0
+					}
+					if i >= len(ret.Results) {
+						return
+					}
+					n++
+					for _, u := range unspill(ret.Results[i]) {
+						w.walk(u, -1, nf, depth+1)
+					}
+				})
+			}
 			if n > 0 {
 				return
 			}
@@ -152,9 +420,8 @@ func (w *c19Walk) walk(v ssa.Value, idx int, fr *c19Frame, depth int) {
 		w.add(c19Origin{kind: "call", v: t, idx: i, fr: fr, desc: callDesc(t)})
 	case *ssa.Parameter:
 		if fr != nil {
-			args := fr.call.Common().Args
-			if i := c19ParamIndex(t); i >= 0 && i < len(args) {
-				w.walk(args[i], -1, fr.parent, depth+1)
+			if a, afr, ok := fr.arg(c19ParamIndex(t)); ok {
+				w.walk(a, -1, afr, depth+1)
 				return
 			}
 		}
@@ -162,11 +429,7 @@ func (w *c19Walk) walk(v ssa.Value, idx int, fr *c19Frame, depth int) {
 	case *ssa.FreeVar:
 		// a closure called from the function that created it
 		if b := resolveFreeVar(t); b != nil {
-			var pf *c19Frame
-			if fr != nil {
-				pf = fr.parent
-			}
-			w.walk(b, -1, pf, depth+1)
+			w.walk(b, -1, creatorFrame(fr, t.Parent()), depth+1)
 			return
 		}
 		w.add(c19Origin{kind: "unknown", v: v, fr: fr, desc: "captured variable " + t.Name()})
@@ -214,23 +477,23 @@ func (w *c19Walk) walk(v ssa.Value, idx int, fr *c19Frame, depth int) {
 		}
 		switch a := t.X.(type) {
 		case *ssa.Alloc:
-			// a local variable cell: what was stored into it
+			// a local variable cell: what was stored into it, here or by a
+			// closure that captured it
 			n := 0
-			for _, rr := range refs(a) {
-				if st, ok := rr.(*ssa.Store); ok && st.Addr == a {
-					n++
-					w.walk(st.Val, -1, fr, depth+1)
+			for _, st := range c19CellStores(a) {
+				n++
+				sfr := fr
+				if st.Parent() != a.Parent() {
+					sfr = nil
 				}
+				w.walk(st.Val, -1, sfr, depth+1)
 			}
 			if n == 0 {
 				w.add(c19Origin{kind: "alloc", v: a, fr: fr})
 			}
 		case *ssa.FreeVar:
 			if cell := cellOf(a); cell != nil {
-				var pf *c19Frame
-				if fr != nil {
-					pf = fr.parent
-				}
+				pf := creatorFrame(fr, a.Parent())
 				for _, rr := range refs(cell) {
 					if st, ok := rr.(*ssa.Store); ok && st.Addr == cell {
 						w.walk(st.Val, -1, pf, depth+1)
@@ -257,6 +520,13 @@ func (w *c19Walk) walk(v ssa.Value, idx int, fr *c19Frame, depth int) {
 								w.walk(st.Val, -1, fr, depth+1)
 							}
 						}
+					}
+				}
+				// the struct variable assigned as a whole (range variable, copy)
+				for _, rr := range refs(base) {
+					if st, ok := rr.(*ssa.Store); ok && st.Addr == ssa.Value(base) {
+						n++
+						w.walk(st.Val, -1, fr, depth+1)
 					}
 				}
 				if n > 0 {
@@ -430,8 +700,10 @@ func (x *c19) explore(fn *ssa.Function, fr *c19Frame, visit func(in ssa.Instruct
 		if _, isGo := in.(*ssa.Go); isGo {
 			return
 		}
-		if cal := x.pkgCallee(ci); cal != nil && cal != fn && !c19FrameHas(fr, cal) {
-			x.explore(cal, &c19Frame{call: ci, parent: fr}, visit)
+		for _, nf := range x.enter(ci, fr) {
+			if nf.fn != fn && !c19FrameHas(fr, nf.fn) {
+				x.explore(nf.fn, nf, visit)
+			}
 		}
 	})
 }
@@ -840,5 +1112,38 @@ func (x *c19) awaitedFrom(fn *ssa.Function) []c19ChanUse {
 			}
 		}
 	})
+	return out
+}
+
+// c19CellStores: the stores into a local variable cell, including those made
+// through the captured variable by closures created in the cell's function
+// (and closures nested in them).
+func c19CellStores(cell *ssa.Alloc) []*ssa.Store {
+	var out []*ssa.Store
+	var via func(addr ssa.Value, depth int)
+	via = func(addr ssa.Value, depth int) {
+		if depth > 4 {
+			return
+		}
+		for _, rr := range refs(addr) {
+			switch t := rr.(type) {
+			case *ssa.Store:
+				if t.Addr == addr {
+					out = append(out, t)
+				}
+			case *ssa.MakeClosure:
+				fn, _ := t.Fn.(*ssa.Function)
+				if fn == nil {
+					continue
+				}
+				for i, b := range t.Bindings {
+					if b == addr && i < len(fn.FreeVars) {
+						via(fn.FreeVars[i], depth+1)
+					}
+				}
+			}
+		}
+	}
+	via(cell, 0)
 	return out
 }
